@@ -75,13 +75,20 @@ pub fn aad_payload_pairs(ex: &Ex) -> Vec<(Vec<u8>, Vec<u8>)> {
 
 /// The bytes a built protected header contributes must parse to the header's map (or be empty).
 fn check_built_slot(cx: &Cx, p: &RProtected, l: &mut Local) {
-    if p.original.is_some() {
-        return;
-    }
     let cp = match subject::c_protected(p) {
         Ok(c) => c,
         Err(_) => return,
     };
+    if let Some(orig) = &p.original {
+        // a header that came from the wire contributes exactly the received bytes
+        if let Some(bytes) = crypto::protected_bytes_of(&cp) {
+            l.impl_checked += 1;
+            if bytes != *orig {
+                cx.viol(l, "received-protected-bytes-not-used", hex(orig), hex(&bytes));
+            }
+        }
+        return;
+    }
     if let Some(bytes) = crypto::protected_bytes_of(&cp) {
         l.impl_checked += 1;
         if p.header.is_empty() {
